@@ -134,6 +134,32 @@ func runSClose(seed int64, idx int) *scen.Outcome {
 			s.st.WriteMessage(box.Ptr())
 		}
 	}
+	// hot writers: on some scenarios every stream has a goroutine that writes
+	// a burst of messages at the very instant of the event, so that
+	// WriteMessage runs concurrently with the close / teardown paths
+	var writersLeft int32
+	if rng.Intn(3) == 0 {
+		at := time.Duration(200+rng.Intn(800)) * time.Microsecond
+		for _, s := range streams {
+			s := s
+			n := 5 + rng.Intn(40)
+			size := 30 + rng.Intn(400)
+			atomic.AddInt32(&writersLeft, 1)
+			go func() {
+				defer atomic.AddInt32(&writersLeft, -1)
+				time.Sleep(at)
+				for i := 0; i < n; i++ {
+					box := svc.NewBox(codec)
+					box.Set(svc.StreamMsg(s.id, svc.DirUp, uint32(100+i), svc.KindSink, 0, size))
+					if s.st.WriteMessage(box.Ptr()) != nil {
+						return
+					}
+				}
+			}()
+		}
+		time.Sleep(at)
+		desc += " hotwriters"
+	}
 	victim := rng.Intn(k)
 	switch event {
 	case "closestream":
@@ -159,6 +185,9 @@ func runSClose(seed int64, idx int) *scen.Outcome {
 	}
 	affected := func(i int) bool { return event != "closestream" || i == victim }
 	settled := env.Settle(func() bool {
+		if atomic.LoadInt32(&writersLeft) > 0 {
+			return false
+		}
 		for i, s := range streams {
 			if affected(i) && atomic.LoadInt32(&s.returned) == 0 {
 				return false
@@ -174,6 +203,9 @@ func runSClose(seed int64, idx int) *scen.Outcome {
 		}
 		return true
 	}, 10*time.Minute)
+	if n := atomic.LoadInt32(&writersLeft); n > 0 {
+		bad("C10/sclose/writer-blocked/"+event, fmt.Sprintf("%d goroutines are still blocked in WriteMessage at quiescence after %s", n, event))
+	}
 	_, srvClosed := pair.ClosedBy()
 	if event == "serverclose" && !srvClosed || event == "cut" && !pair.Broken() {
 		// the event did not end the connection (nothing for the property to judge)
@@ -221,6 +253,14 @@ func runSClose(seed int64, idx int) *scen.Outcome {
 		}
 	}
 	_ = settled
+	if event != "closestream" {
+		// the connection has ended: a call started now fails at once (C03)
+		t0 := time.Now()
+		rec := rig.Do(conn, rig.FormCall, codec, rig.Method(codec, 0), svc.Spec{Run: uint32(idx), Conn: 1, Caller: 9, Counter: 2, ReplyLen: 30}, 0, nil)
+		if rec.Err != rpc.ErrShutdown || time.Since(t0) != 0 {
+			out.Findings = append(out.Findings, scen.Finding{Prop: "C03", FSig: "C03/sclose/later-call/" + event, What: fmt.Sprintf("a Call started after the connection had ended (%s, with streams open) returned %v after %v; expected ErrShutdown at once [%s]", event, rec.Err, time.Since(t0), desc)})
+		}
+	}
 	if event == "closestream" {
 		// siblings and unary calls must be undisturbed
 		for i, s := range streams {
